@@ -205,6 +205,7 @@ class _Spellings(ast.NodeTransformer):
          x.fill(v)   (statement, x a name) ->  x[...] = v            (ndarray.fill; lists have no fill)
          x: T = v                          ->  x = v
          yield from X   (statement)        ->  for _y in X: yield _y
+         a, b = (E for v in range(2))      ->  a = E[v:=0]; b = E[v:=1]
     """
     def __init__(self):
         self.n = 0
@@ -220,6 +221,35 @@ class _Spellings(ast.NodeTransformer):
             if len(a) != len(n.args):
                 n.args = a
                 self.n += 1
+        return n
+
+    def visit_Assign(self, n):
+        # a, b, c = (E for v in range(3))   ->   a = E[v:=0]; b = E[v:=1]; c = E[v:=2]
+        # (each target receives its own evaluation of E, in the same order; E must not read the targets)
+        self.generic_visit(n)
+        if len(n.targets) == 1 and isinstance(n.targets[0], (ast.Tuple, ast.List)) and \
+                isinstance(n.value, (ast.GeneratorExp, ast.ListComp)) and len(n.value.generators) == 1:
+            g = n.value.generators[0]
+            tg = n.targets[0].elts
+            if all(isinstance(t, ast.Name) for t in tg) and not g.ifs and not g.is_async and isinstance(g.target, ast.Name) and \
+                    isinstance(g.iter, ast.Call) and isinstance(g.iter.func, ast.Name) and g.iter.func.id == 'range' and \
+                    len(g.iter.args) == 1 and not g.iter.keywords and isinstance(g.iter.args[0], ast.Constant) and \
+                    g.iter.args[0].value == len(tg) and len(tg) >= 1:
+                names = {t.id for t in tg}
+                if not any(isinstance(x, ast.Name) and x.id in names for x in ast.walk(n.value.elt)) and \
+                        not any(isinstance(x, (ast.NamedExpr, ast.Yield, ast.YieldFrom, ast.Await, ast.Lambda)) for x in ast.walk(n.value.elt)):
+                    out = []
+                    for j, t in enumerate(tg):
+                        e = _Subst({g.target.id: ast.Constant(value=j)}).visit(copy.deepcopy(n.value.elt))
+                        a = ast.Assign(targets=[ast.Name(id=t.id, ctx=ast.Store())], value=e, type_comment=None)
+                        ast.copy_location(a, n)
+                        for x in ast.walk(a):
+                            if isinstance(x, (ast.expr, ast.stmt)):
+                                ast.copy_location(x, n)
+                        ast.fix_missing_locations(a)
+                        out.append(a)
+                    self.n += 1
+                    return out
         return n
 
     def visit_AnnAssign(self, n):
